@@ -92,6 +92,14 @@ def scan_reader():
     body = func_body(stream, READ_HDR)
     if body is None:
         return None, None, "cannot find Stream.readMore in stream.go"
+    # local variable names do not matter: the length local is the one assigned from s.recvBuf.Len(), the timer
+    # channel the one declared `var <ident> <-chan time.Time`
+    m = re.search(r"\b(\w+) := s\.recvBuf\.Len\(\)", body)
+    if m:
+        body = re.sub(r"\b%s\b" % re.escape(m.group(1)), "recvLen", body)
+    m = re.search(r"\bvar (\w+) <-chan time\.Time", body)
+    if m:
+        body = re.sub(r"\b%s\b" % re.escape(m.group(1)), "timeoutCh", body)
     head = "s.pendingData.moveTo(s.recvBuf) recvLen := s.recvBuf.Len() if recvLen >= minSize { return nil } if recvLen == 0 && !s.IsOpen() { "
     e_old = head + "return ErrEndOfStream } var timeoutCh"
     e_new = head + "s.pendingData.moveTo(s.recvBuf) if s.recvBuf.Len() >= minSize { return nil } if s.recvBuf.Len() == 0 { return ErrEndOfStream } } var timeoutCh"
@@ -122,16 +130,28 @@ def rewrite_stream():
     if i < 0 or j < 0:
         return None, "cannot find Stream.readMore"
     fn = src[i:j]
-    subs = [("\t\tselect {\n", "\t\tswitch c07ReadSelect(s, timeoutCh) {\n"),
-            ("\t\tcase <-s.recvNotifyCh:\n", "\t\tcase 0:\n"),
-            ("\t\tcase <-s.closeNotifyCh:\n", "\t\tcase 1:\n"),
-            ("\t\tcase <-timeoutCh:\n", "\t\tcase 2:\n"),
-            ("if recvLen == 0 && !s.IsOpen() {", "if recvLen == 0 && !c07ReadEntryIsOpen(s) {")]
+    m = re.search(r"\bvar (\w+) <-chan time\.Time", fn)
+    if not m:
+        return None, "Stream.readMore: no `var <ident> <-chan time.Time` (the timer channel of the select)"
+    tch = m.group(1)
+    subs = [(r"\bselect \{", "switch c07ReadSelect(s, %s) {" % tch),
+            (r"\bcase <-s\.recvNotifyCh:", "case 0:"),
+            (r"\bcase <-s\.closeNotifyCh:", "case 1:"),
+            (r"\bcase <-%s:" % re.escape(tch), "case 2:"),
+            (r"(\bif \w+ == 0 && )!s\.IsOpen\(\) \{", r"\1!c07ReadEntryIsOpen(s) {")]
     for a, b in subs:
-        if fn.count(a) != 1:
-            return None, "Stream.readMore: %r occurs %d times (expected once): cannot put the reader under control" % (a.strip(), fn.count(a))
-        fn = fn.replace(a, b)
+        n = len(re.findall(a, fn))
+        if n != 1:
+            return None, "Stream.readMore: the anchor /%s/ occurs %d times (expected once)" % (a, n)
+        fn = re.sub(a, b, fn)
     out = os.path.join(core.WORK, "c07_stream_%s" % core.tree_hash())
+    for d in os.listdir(core.WORK):   # copies of older trees
+        if d.startswith("c07_stream_") and os.path.join(core.WORK, d) != out:
+            try:
+                if os.path.getmtime(os.path.join(core.WORK, d)) < __import__("time").time() - 600:
+                    __import__("shutil").rmtree(os.path.join(core.WORK, d), ignore_errors=True)
+            except OSError:
+                pass
     os.makedirs(out, exist_ok=True)
     dst = os.path.join(out, "stream.go")
     with open(dst, "w") as fh:
@@ -281,18 +301,26 @@ def eval_reader(cases, tag):
     return [(items[int(a)]["id"], int(b)) for a, b in re.findall(r"\((\d+),\s*(\d+)\)", m.group(1))]
 
 
+REWRITE_NOTE = []
+
+
 def run_harness(n, seed, tag):
     ov, rep, err = sched.instrument(["queue.go", "session.go", "protocol_manager.go"])
     if err:
         return None, err
+    ov = dict(ov)
+    env = {"VERIF_OUT": None, "VERIF_N": str(n), "VERIF_SEED": str(seed)}
     ov2, rerr = rewrite_stream()
     if rerr:
-        return None, "cannot put Stream.readMore under control (anchor of the overlay rewrite): " + rerr
-    ov = dict(ov)
-    ov.update(ov2)
+        # an anchor of the overlay rewrite is an unrecognised SHAPE, not evidence against the property: run without the
+        # controlled select (the families that need it are skipped by the harness), report it as a shape break
+        REWRITE_NOTE.append("cannot put Stream.readMore under control (anchor of the overlay rewrite): " + rerr)
+        env["VERIF_C07_NOCTL"] = "1"
+    else:
+        ov.update(ov2)
     outp = os.path.join(core.WORK, "c07_%s_%d.jsonl" % (tag, os.getpid()))
-    rc, out, secs = core.go_test(PROP, "^TestVerif_C07$", {"VERIF_OUT": outp, "VERIF_N": str(n), "VERIF_SEED": str(seed)},
-                                 extra_replace=ov, timeout=1500)
+    env["VERIF_OUT"] = outp
+    rc, out, secs = core.go_test(PROP, "^TestVerif_C07$", env, extra_replace=ov, timeout=1500)
     if rc != 0:
         return None, "harness failed (rc=%d): %s" % (rc, out[-2500:])
     cases = [json.loads(l) for l in open(outp)]
@@ -318,7 +346,10 @@ def check(run):
         write_switch(sticky, moves)
     run.proof = core.proof_step(PROP, run.tier)
     n = 24 if run.tier == "quick" else 600
+    del REWRITE_NOTE[:]
     cases, err = run_harness(n, run.seed, run.tier)
+    for nt in REWRITE_NOTE[:1]:
+        run.add_corr_break("T: " + nt + " — the directed reader families h/j were skipped", shape=True)
     if err:
         run.add_corr_break("T: " + err)
         cases = []
